@@ -43,6 +43,9 @@ fixed("C04", "973b417", "Header.CheckIntegrity built the serialised header but n
 fixed("C16", "cd35c78", "parseDataFields incremented the unknown-field counter for every field of every unknown message (increment not control-dependent on knownMsg)",
       "C16-R4-counter-guards", "parseDataFields/unknownFields")
 
+fixed("C13", "58857ef", "parseFileIdMsg: the header test before the file_id data record was (b & 0x00) == 0x00 (true for all 256 bytes) and the test before the definition admitted compressed headers 11xxxxxx: a definition/compressed header there was parsed as data of local type b&0x0F",
+      "C13-R1-fileid-guards", "parseFileIdMsg/guard-data")
+
 json.dump({
     "comment": "Genuine defects of tormoder/fit. status=known: recorded, not repaired (reason in DESIGN.md section 1); the check prints KNOWN-FINDING for exactly that (property, rule, key). status=fixed: repaired by the named fix: commit in /repo; suppresses nothing. This file is never written at run time.",
     "findings": F,
